@@ -87,6 +87,9 @@ pub fn run(ctx: &mut RunCtx<'_>) -> Option<Violation> {
     let gen = GenCfg { valid: true, size_class, cap_unfragmented: 300, cap_fragmented: 300, budget: 32, additions_absent: false };
     ctx.note(|| format!("chain {role_name}: V{lo} ({}) vs V{hi} ({}), {} messages, direction {}", t_lo.name, t_hi.name, k, if new_to_old { "new->old" } else { "old->new" }));
     ctx.counters.inc(if new_to_old { "c05.direction.new_to_old" } else { "c05.direction.old_to_new" });
+    // the injected "fault" of this property is the configuration: the peers run different versions
+    ctx.counters.inc(if new_to_old { "fault.CFG-VERSION-SKEW.sender-newer" } else { "fault.CFG-VERSION-SKEW.receiver-newer" });
+    ctx.counters.add("fault.CFG-VERSION-SKEW.versions-apart", (hi - lo) as u64);
     ctx.counters.inc(&format!("c05.role.{role_name}"));
 
     // D8 domain predicates (only while listed as open findings)
